@@ -236,11 +236,15 @@ impl Accept for DuplexIncoming {
         mut self: Pin<&mut Self>,
         cx: &mut Context<'_>,
     ) -> Poll<Result<Self::Conn, Self::Error>> {
-        if let Some(request) = ready!(self.receiver.poll_recv(cx)) {
-            let stream = request.ack(self.max_buf_size)?;
-            Poll::Ready(Ok(stream))
-        } else {
-            Poll::Ready(Err(io::ErrorKind::ConnectionReset.into()))
+        loop {
+            match ready!(self.receiver.poll_recv(cx)) {
+                Some(request) => match request.ack(self.max_buf_size) {
+                    Ok(stream) => return Poll::Ready(Ok(stream)),
+                    // The client gave up before it was accepted: that is its problem, not the listener's.
+                    Err(_) => continue,
+                },
+                None => return Poll::Ready(Err(io::ErrorKind::ConnectionReset.into())),
+            }
         }
     }
 }
@@ -249,11 +253,14 @@ impl futures_core::Stream for DuplexIncoming {
     type Item = Result<DuplexStream, io::Error>;
 
     fn poll_next(mut self: Pin<&mut Self>, cx: &mut Context<'_>) -> Poll<Option<Self::Item>> {
-        if let Some(request) = ready!(self.receiver.poll_recv(cx)) {
-            let stream = request.ack(self.max_buf_size)?;
-            Poll::Ready(Some(Ok(stream)))
-        } else {
-            Poll::Ready(None)
+        loop {
+            match ready!(self.receiver.poll_recv(cx)) {
+                Some(request) => match request.ack(self.max_buf_size) {
+                    Ok(stream) => return Poll::Ready(Some(Ok(stream))),
+                    Err(_) => continue,
+                },
+                None => return Poll::Ready(None),
+            }
         }
     }
 }
